@@ -36,14 +36,19 @@ func registerC11() {
 // faults use error values a real reader stack returns (a truncated gzip or TLS stream yields
 // io.ErrUnexpectedEOF, a closed pipe io.ErrClosedPipe): none of them is a clean end of input.
 var faultKinds = []struct {
-	name string
-	err  error
+	name     string
+	err      error
+	withData bool // the last bytes before the end arrive in the same Read call as the end
 }{
-	{"clean cut", nil},
-	{"read fault (sentinel error)", lib.ErrInjected},
-	{"read fault (io.ErrUnexpectedEOF)", io.ErrUnexpectedEOF},
-	{"read fault (io.ErrClosedPipe)", io.ErrClosedPipe},
-	{"read fault (wrapped io.EOF is still an error: fs.ErrClosed)", os.ErrClosed},
+	{"clean cut", nil, false},
+	{"read fault (sentinel error)", lib.ErrInjected, false},
+	{"read fault (io.ErrUnexpectedEOF)", io.ErrUnexpectedEOF, false},
+	{"read fault (io.ErrClosedPipe)", io.ErrClosedPipe, false},
+	{"read fault (wrapped io.EOF is still an error: fs.ErrClosed)", os.ErrClosed, false},
+	// io.Reader: "callers should always process the n > 0 bytes returned before considering the
+	// error": bytes that arrive together with the end were delivered before it
+	{"clean cut, last bytes delivered together with io.EOF", nil, true},
+	{"read fault (sentinel error) delivered together with the last bytes", lib.ErrInjected, true},
 }
 
 type c11File struct {
@@ -162,12 +167,16 @@ func c11Run(c *lib.Ctx, rng *lib.Rand, idx uint64, nfiles int, large bool) {
 		}
 		noffsets++
 		for fault := 0; fault < len(faultKinds); fault++ {
-			if cut == len(stream) && fault == 0 {
+			if cut == len(stream) && faultKinds[fault].err == nil {
 				continue // the intact stream
 			}
 			for _, ep := range lib.EntryPoints {
 				for ci, ch := range chunkers {
-					r := &lib.Reader{Data: stream, Limit: cut, Fault: fault >= 1, FaultErr: faultKinds[fault].err, Ch: ch}
+					isFault := faultKinds[fault].err != nil
+					if faultKinds[fault].withData {
+						ch.EOFWithData, ch.ErrWithData = true, true
+					}
+					r := &lib.Reader{Data: stream, Limit: cut, Fault: isFault, FaultErr: faultKinds[fault].err, Ch: ch}
 					var res lib.CallResult
 					// every other offset, the decoding entry points run with all options on (second
 					// chunker only): error and messages must be the same, and the unknown lists of
@@ -188,7 +197,7 @@ func c11Run(c *lib.Ctx, rng *lib.Rand, idx uint64, nfiles int, large bool) {
 						c.Violation(stream, "%s: panicked/hung: %s", where, o.Panic)
 						return
 					}
-					if !c11Judge(c, stream, where, ep, cut, fault >= 1, need[ep], res, intact[ep], files, bounds) {
+					if !c11Judge(c, stream, where, ep, cut, isFault, need[ep], res, intact[ep], files, bounds) {
 						return
 					}
 				}
